@@ -1,11 +1,12 @@
 ------------------------------ MODULE MC_XUnseen ------------------------------
 EXTENDS XUnseen, Json
-RelAll == {"equal", "subset", "single", "overlapping", "disjoint", "repeated", "reversed"}
+RelAll == {"equal", "subset", "single", "overlapping", "disjoint", "repeated", "reversed", "equalOtherMissing"}
 RelEqual == {"equal"}
 RelC04 == {"equal", "reversed", "subset"}
 FamT == {"EOF", "EOFstd", "ComplexEOF", "SparsePCA", "POP", "EOFRotator1", "EOFRotator2", "EOFRotator3", "ComplexEOFRotator2",
-         "MCA", "CCA", "RDA", "CPCCA05", "CPCCA0_1", "ComplexMCA", "ComplexCPCCA05", "MCARotator1", "CPCCARotator2", "CPCCARotator3", "ComplexCPCCARotator1", "multiCCA"}
-FamQ == {"EOF", "ComplexEOF", "SparsePCA", "POP", "EOFRotator2", "MCA", "CCA", "CPCCA05", "ComplexCPCCA05", "CPCCARotator2", "MCARotator1", "multiCCA", "RDA", "EOFRotator3"}
+         "MCA", "CCA", "RDA", "CPCCA05", "CPCCA0_1", "ComplexMCA", "ComplexCPCCA05", "MCARotator1", "CPCCARotator2", "CPCCARotator3", "ComplexCPCCARotator1", "multiCCA",
+         "EOFnan", "MCAnan", "EOFRotator2nan"}
+FamQ == {"EOF", "ComplexEOF", "SparsePCA", "POP", "EOFRotator2", "MCA", "CCA", "CPCCA05", "ComplexCPCCA05", "CPCCARotator2", "MCARotator1", "multiCCA", "RDA", "EOFRotator3", "EOFnan", "MCAnan"}
 SLAll == {"one", "two", "multi"}
 SLQ == {"one", "two"}
 NzBoth == {FALSE, TRUE}
